@@ -263,3 +263,83 @@ Theorem job_monitor_sound c acts :
 Proof.
   intros V Sf. apply job_steps_model; [now apply Inv_init|apply JobInv_init| |exact Sf]. intros [] n onf [].
 Qed.
+
+(* ------------------------------------------------------------------ C16 step monitors *)
+From KV Require Import Proofs.WorldRpc.
+
+Lemma exp_completed_project w : exp_completed (project w) = match w_exp w with Some e => e_completed (e_st e) | None => false end.
+Proof. unfold exp_completed, project. cbn [pj_exp]. destruct (w_exp w); reflexivity. Qed.
+
+Lemma restart_enabled_project w e : w_exp w = Some e -> restart_enabled (w_cfg w) (project w) = restart_enabled_e (w_cfg w) e.
+Proof.
+  intro He. unfold restart_enabled, project, restart_enabled_e, restartable. cbn [pj_exp]. rewrite He. cbn [pe_conds pe_max pe_counts].
+  destruct (get_cond (es_conds (e_st e)) ESucceeded) as [c0|]; [|reflexivity].
+  destruct (cstatus_eqb (cstat c0) CTrue && Nat.eqb (creason c0) RMaxTrialsReached); cbn [andb]; [|reflexivity].
+  destruct (c_resume (w_cfg w)); reflexivity.
+Qed.
+
+(* a verdict is withdrawn only when the restart is enabled *)
+Theorem restart_step_model w a : Inv w -> is_teardown a = false -> restart_step (w_cfg w) (project w) a (project (step w a)) = true.
+Proof.
+  intros Iv NT. unfold restart_step. rewrite !exp_completed_project.
+  pose proof Iv as [I _]. destruct (inv_exp_some _ I) as (e&He&_). rewrite He.
+  destruct (e_completed (e_st e)) eqn:C; [|reflexivity]. cbn [andb].
+  destruct (restart_enabled (w_cfg w) (project w)) eqn:R; [now destruct (_ && _)|].
+  rewrite (restart_enabled_project w e He) in R.
+  destruct (verdict_stable_step w a e Iv NT He C R) as (e'&He'&S). rewrite He'.
+  now rewrite (verdict_same_completed _ _ S C).
+Qed.
+
+Theorem restart_steps_model w acts : Inv w -> no_teardown acts -> all_steps (restart_step (w_cfg w)) (project w) (msteps w acts) = true.
+Proof.
+  revert w. induction acts as [|a l IH]; intros w I NT; [reflexivity|].
+  apply no_teardown_cons in NT as [Na NT]. cbn [msteps all_steps]. rewrite restart_step_model by assumption. cbn.
+  rewrite <- (step_cfg w a). apply IH; [now apply step_inv|exact NT].
+Qed.
+
+(* no algorithm call by a suggestion reconcile that sees the suggestion Succeeded: the monitor's "cached" suggestion is the
+   model's suggestion cache *)
+Definition psug_of (s : sugobj) : psug :=
+  {| ps_requests := s_requests s; ps_names := ss_names (s_st s); ps_count := ss_count (s_st s); ps_conds := ss_conds (s_st s); ps_settings := ss_settings (s_st s) |}.
+
+Lemma pj_sug_project w : pj_sug (project w) = option_map psug_of (w_sug w).
+Proof. unfold project. cbn [pj_sug]. destruct (w_sug w); reflexivity. Qed.
+
+Lemma action_eq_syncsug a : a = SyncSug \/ a <> SyncSug.
+Proof. destruct a; try (right; discriminate). now left. Qed.
+
+Lemma step_csug_same w a : a <> SyncSug -> c_sug (step w a) = c_sug w.
+Proof.
+  intro Ne. destruct a; cbn [step].
+  - destruct (pending_of w c); [|reflexivity]. destruct c; [|destruct (plan_sug w resp)|]; reflexivity.
+  - destruct (pending_of w c) as [|[wr onf] rest]; [reflexivity|].
+    destruct (if inject_failure then None else apply_write (count_write w) wr) as [w1|] eqn:A; [|destruct c; reflexivity].
+    destruct inject_failure; [discriminate|]. destruct (apply_write_side0 _ _ _ A) as (_&E&_). destruct c; cbn; rewrite E; reflexivity.
+  - destruct c; reflexivity.
+  - reflexivity.
+  - reflexivity.
+  - destruct (find_trial t (w_trials w)), (db_get t (w_db w)); reflexivity.
+  - destruct (find_trial t (w_trials w)) as [tr|]; [|reflexivity]. destruct (_ && _); [|reflexivity]. cbn. destruct v, (db_get t (w_db w)); reflexivity.
+  - destruct (i_dep (w_infra w)); reflexivity.
+  - reflexivity.
+  - contradiction.
+  - reflexivity.
+  - destruct (w_exp w) as [e|]; [|reflexivity]. destruct (e_max e); [|reflexivity]. destruct (_ && _ && _); reflexivity.
+  - destruct (w_exp w) as [e|]; [|reflexivity]. destruct (e_fin e); reflexivity.
+  - destruct (w_exp w), (find_trial t (w_trials w)) as [tr|]; try reflexivity. destruct (t_fin tr); reflexivity.
+Qed.
+
+Theorem rpc_walk_model w acts : rpc_walk (option_map psug_of (c_sug w)) (project w) (msteps w acts) = true.
+Proof.
+  revert w. induction acts as [|a l IH]; intro w; [reflexivity|]. cbn [msteps rpc_walk].
+  apply andb_true_iff. split.
+  - destruct a; try reflexivity. destruct c; try reflexivity.
+    destruct (c_sug w) as [s|] eqn:Hs; [|reflexivity]. cbn [option_map].
+    destruct (ps_is (psug_of s) SSucceeded) eqn:S; [|reflexivity]. cbn [negb orb].
+    unfold project. cbn [pj_nrpc]. rewrite (no_rpc_while_succeeded w _ s Hs S). apply Nat.eqb_refl.
+  - assert (E : match a with SyncSug => pj_sug (project w) | _ => option_map psug_of (c_sug w) end = option_map psug_of (c_sug (step w a))).
+    { destruct (action_eq_syncsug a) as [->|Ne].
+      - cbn [step set_caches c_sug]. apply pj_sug_project.
+      - rewrite (step_csug_same w a Ne). destruct a; try reflexivity. contradiction. }
+    rewrite E. apply IH.
+Qed.
